@@ -2708,7 +2708,24 @@ class BaseInterpreter(Generic[TContext, TEvent]):
             return parent
 
         # The LCCA is the deepest common ancestor.
-        return max(common_ancestors, key=lambda n: n.depth)
+        lcca = max(common_ancestors, key=lambda n: n.depth)
+
+        # 🕰️ A history child of a *parallel* state is not one of its regions.
+        #    Targeting it from inside that parallel state made the parallel
+        #    state the domain, and `_compute_states_to_exit` then scoped the
+        #    exit set to "the region containing the target" - the history
+        #    pseudo-state itself - so nothing was exited while the remembered
+        #    configuration was entered on top of the live one (two active
+        #    children in one region). Restoring a parallel state's history
+        #    replaces every region, so the parallel state itself must be
+        #    exited and re-entered: its parent is the domain.
+        if (
+            target_state.type == "history"
+            and lcca is target_state.parent
+            and lcca.type == "parallel"
+        ):
+            return lcca.parent
+        return lcca
 
     @staticmethod
     def _get_path_to_state(
